@@ -95,6 +95,8 @@ def shapes(node, ctx=""):
             return [("pattern", pat)]
         if node.get("description") == "expression":
             return [("string",), ("expression",)]
+        if "maxLength" in node or "minLength" in node:
+            return [("string", node.get("minLength", 0), node.get("maxLength"))]
         return [("string",)]
     if t in ("number", "integer"):
         lo = node.get("minimum")
@@ -206,6 +208,13 @@ def value_for(rng, shape, key):
         return shape[1], [(str(shape[1]), "num")], "int"
     if k == "string":
         s = rstring(rng) if FORCE_STRING is None else FORCE_STRING
+        if len(shape) == 3:
+            # the schema bounds the length (WRAP is one character): stay inside, like every other generated value
+            lo, hi = shape[1] or 0, shape[2]
+            if hi is not None and len(s) > hi:
+                s = s[:hi]
+            while len(s) < lo:
+                s += "x"
         return s, [(s, "qstr")], "string"
     if k == "binding":
         a = rng.choice(["name", "Attr_1", "pop2020"])
@@ -328,7 +337,9 @@ def add_item(rng, b, k, sh, depth, max_items=6):
     if kind == "points" and k not in ("points", "pattern"):
         return
     if k in ("points", "pattern"):
-        pairs = [(rng.randint(0, 50), rng.choice([rng.randint(0, 50), 2.5])) for _ in range(rng.randint(1, 3))]
+        # integers, short floats, and floats with many decimals / tiny floats (coordinates are written as they are)
+        pairs = [(rng.choice([rng.randint(0, 50), rng.randint(0, 50), 61.3985512, 0.1234567, 2.5e-07]),
+                  rng.choice([rng.randint(0, 50), 2.5, 45.1234567, 1.0000001])) for _ in range(rng.randint(1, 3))]
         b.items.append(("points", k, pairs))
         return
     if kind == "objlist":
